@@ -44,9 +44,11 @@ func (t *T0x0102) Parse(jtMsg *jt808.JTMessage) error {
 		if len(body) < 1+int(t.AuthCodeLen)+15+20 {
 			return protocol.ErrBodyLengthInconsistency
 		}
-		t.AuthCode = string(body[1 : 1+t.AuthCodeLen])
-		t.TerminalIMEI = string(body[1+t.AuthCodeLen : 1+t.AuthCodeLen+15])
-		data := body[1+t.AuthCodeLen+15 : 1+t.AuthCodeLen+15+20]
+		// 用int计算下标 uint8的1+AuthCodeLen+15在AuthCodeLen>=240时会溢出
+		codeEnd := 1 + int(t.AuthCodeLen)
+		t.AuthCode = string(body[1:codeEnd])
+		t.TerminalIMEI = string(body[codeEnd : codeEnd+15])
+		data := body[codeEnd+15 : codeEnd+15+20]
 		if index := bytes.IndexByte(data, 0x00); index != -1 {
 			data = data[:index]
 		}
@@ -97,7 +99,7 @@ func (t *T0x0102) String() string {
 		str += fmt.Sprintf("\t[%02x] 鉴权码长度:[%d]\n", t.AuthCodeLen, t.AuthCodeLen)
 		str += fmt.Sprintf("\t[%x] 鉴权码:[%s]\n", t.AuthCode, t.AuthCode)
 		str += fmt.Sprintf("\t[%015x] 终端IMEI:[%s]\n", t.TerminalIMEI, t.TerminalIMEI)
-		str += fmt.Sprintf("\t[%020x]软件版本:[%s]\n", body[1+t.AuthCodeLen+15:], t.SoftwareVersion)
+		str += fmt.Sprintf("\t[%020x]软件版本:[%s]\n", body[1+len(t.AuthCode)+len(t.TerminalIMEI):], t.SoftwareVersion)
 	} else {
 		str += fmt.Sprintf("\t鉴权码:[%s]\n", t.AuthCode)
 	}
